@@ -77,7 +77,7 @@ func c03One(v interface{}, ch refcodec.Choices, opt refcodec.EncOptions, tm map[
 }
 
 func c03Opt(compact bool, hoist bool, pad int) refcodec.EncOptions {
-	return refcodec.EncOptions{BinChunkTag: 'b', CompactDate: compact, HoistAnywhere: hoist, MaxPadding: pad, MaxChunks: 4}
+	return refcodec.EncOptions{CompactDate: compact, HoistAnywhere: hoist, MaxPadding: pad, MaxChunks: 4}
 }
 
 // small values whose complete choice tree is enumerated
@@ -185,7 +185,11 @@ func TestC03(t *testing.T) {
 		c.set("value", desc)
 		r.Current("C03 " + shape + " " + desc)
 		rc := &recordingChoices{inner: rapidChoices{rt}}
-		refBytes, nonCanon, skipped, failure, harness := c03One(v, rc, c03Opt(compact, hoist, pad), tm, nm)
+		opt := c03Opt(compact, hoist, pad)
+		if rapid.IntRange(0, 3).Draw(rt, "draftBinaryChunkTag") == 0 {
+			opt.BinChunkTag = 'b' // the draft's tag: legal only where it cannot be an instance of class #2
+		}
+		refBytes, nonCanon, skipped, failure, harness := c03One(v, rc, opt, tm, nm)
 		if harness != "" {
 			harnessBug(rt, "C03", "%s; value %s", harness, desc)
 		}
